@@ -917,7 +917,15 @@ func c07SetStr(m map[string]bool) string {
 var c07IncCounter int
 
 // programs accepted by model and compiler that call a nested pipeline: run in Tier A afterwards
+var c07LastProgReq string
+
+// did the last program asked about satisfy every hypothesis of program_sound_partial?
+var c07LastProgOk bool
+
 var c07NestedRun []string
+
+// the C07.progrun request (model's checked run) of a program text queued in c07NestedRun
+var c07NestedReq = map[string]string{}
 
 func c07CompileWithPaths(src string, paths []string) (ast *syntax.Ast, err error) {
 	defer func() {
@@ -1215,13 +1223,18 @@ func c07JudgePipe(c *Ctx, p *c07Pipe, class string) {
 			parts = append(parts, q.enc())
 		}
 		parts = append(parts, top.enc(), fmt.Sprint(len(chain)+1))
+		c07LastProgReq = strings.Join(parts, " ")
 		rep := c.Drv.Ask("C07.prog", strings.Join(parts, " "))
+		c07LastProgOk = strings.Contains(rep, "progOk=true")
 		f := strings.Fields(rep)
 		if len(f) < 3 {
 			r.note("bad reply of C07.prog: %q", rep)
 		} else {
 			r.hist("prog_" + f[1])
 			r.hist("prog_" + f[2])
+			if f[1] == "progOk=true" && len(f) > 3 {
+				r.hist("prog_progOk_" + f[3]) // nodisabled=true: program_sound_no_disabled_partial applies
+			}
 			if f[1] != "progOk=true" {
 				r.hist("prog_hyp_fails_" + f[len(f)-1])
 			}
@@ -1238,6 +1251,15 @@ func c07JudgePipe(c *Ctx, p *c07Pipe, class string) {
 	if err := c07CallGraphPaths(src+p.topCall(), paths); err != nil {
 		if strings.Contains(err.Error(), "cannot be bound inside an untyped map") || strings.Contains(err.Error(), "cannot be assinged to untyped map: contains reference") {
 			r.hist("pipe_invoke_fails_pipeline_struct_into_untyped_map")
+			// the hypothesis `umapPipe` of program_sound_partial stands in for the unmodelled composition of
+			// bindings: it must exclude every program the real resolver refuses for this reason
+			if c07LastProgOk {
+				r.violate(Violation{Kind: "correspondence", Key: "C07:prog:umap-hypothesis-does-not-cover",
+					What:  "a program the real resolver refuses (reference inside an untyped map) satisfies every hypothesis of program_sound_partial: " + firstLine(err.Error()),
+					Input: map[string]interface{}{"program": src + p.topCall(), "error": err.Error()}, Broken: "Props.C07.program_sound_partial (umapPipe)"})
+			} else {
+				r.hist("pipe_invoke_fails_untyped_map_excluded_by_umapPipe")
+			}
 			r.violate(Violation{Kind: "property", Key: c07UntypedMapKey,
 				What:  "a reference to struct-typed outputs of a nested pipeline bound to an untyped map parameter is accepted by the compiler, but the pipeline cannot be invoked: " + firstLine(err.Error()),
 				Input: map[string]interface{}{"program": src + p.topCall(), "error": err.Error()}})
@@ -1251,6 +1273,7 @@ func c07JudgePipe(c *Ctx, p *c07Pipe, class string) {
 	if p.inner != nil && paths == nil && !strings.Contains(src, " local ") && !strings.Contains(src, "local = true") {
 		// (stages marked local are run by the real local job manager, which Tier A does not provide)
 		c07NestedRun = append(c07NestedRun, src+p.topCall())
+		c07NestedReq[src+p.topCall()] = c07LastProgReq
 	}
 	if c.Rng.Intn(2) == 0 {
 		c07JudgeTop(c, p, src, paths)
@@ -1393,6 +1416,13 @@ func c07JudgeTop(c *Ctx, p *c07Pipe, src string, paths []string) {
 		return
 	}
 	if err := c07CallGraphPaths(full, paths); err != nil {
+		if strings.Contains(err.Error(), "disabled cannot be bound to a null value") {
+			// BY DESIGN (resolveDisableExp): a `disabled` modifier that is null when the program is invoked is
+			// refused; null conforms to bool, so the compile-time rules accept it.  The checked semantics of the
+			// model stops there too (Res.nullDisabled, Props.C07.disabled_null_witness; compared in c07DisabledRuntime).
+			r.hist("top_static_null_disabled_refused_by_design")
+			return
+		}
 		key := "C07:top:accepted-but-callgraph-fails"
 		if strings.Contains(err.Error(), "cannot be bound inside an untyped map") || strings.Contains(err.Error(), "cannot be assinged to untyped map: contains reference") {
 			key = c07UntypedMapKey
@@ -1817,6 +1847,22 @@ func c07NestedRuntime(c *Ctx, max int) {
 		r.hist("pipe_tiera_final_" + finalClass(res.Final))
 		r.count(cs.prog.Src, true)
 		if res.Final == "complete" {
+			// the model's checked run (runProgram, stages returning null outputs) of the same program must not fail
+			if req := c07NestedReq[cs.prog.Src]; req != "" {
+				rep := c.Drv.Ask("C07.progrun", req)
+				switch rep {
+				case "run none":
+					r.hist("pipe_tiera_complete_model_run_fails")
+				case "run nullDisabled":
+					r.hist("pipe_tiera_complete_model_run_nullDisabled") // the model's stages return null, also for `disabled` flags
+				default:
+					r.hist("pipe_tiera_complete_model_run_ok")
+				}
+				if rep == "run none" {
+					r.violate(Violation{Kind: "correspondence", Key: "C07:progrun:model-fails", What: "the real run of an accepted nested program completes, but the model's checked run (runProgram with null stage outputs) fails",
+						Input: map[string]interface{}{"program": cs.prog.Src}, Model: rep, Impl: "complete", Broken: "correspondence runProgram ~ Tier-A run"})
+				}
+			}
 			continue
 		}
 		if res.Final == "compile-error" {
@@ -1830,14 +1876,147 @@ func c07NestedRuntime(c *Ctx, max int) {
 	}
 }
 
+// c07DisabledRuntime: the `disabled` modifier at run time, model (runProgram /
+// disabledRT: a disabled call is not invoked and delivers null outputs; a null
+// `disabled` value stops the run: Res.nullDisabled) against the real runtime under the
+// Tier-A job manager. One program, three top-level calls (d = true / false /
+// null): a MAP call with literal keys of a stage with a file output and a single
+// call, both `using (disabled = self.d)`, a consumer of both, both returned.
+// Compared: which stages were launched, which top-level outputs are null, and
+// the keys of the map-call output.
+func c07DisabledRuntime(c *Ctx) {
+	r := c.Res
+	f := &c07PCallee{name: "F", isStage: true, params: []c17Field{{"a", c07B("int")}}, outs: []c17Field{{"f", c07B("file")}}}
+	g := &c07PCallee{name: "G", isStage: true, params: []c17Field{{"a", c07B("int")}}, outs: []c17Field{{"f", c07B("file")}}}
+	sink := &c07PCallee{name: "SINK", isStage: true, params: []c17Field{{"m", c07M(c07B("file"))}, {"g", c07B("file")}}, outs: []c17Field{{"r", c07B("int")}}}
+	dis := c07Mods{using: []c07ModItem{{tag: 'D', e: c07Ref('r', "d")}}}
+	p := &c07Pipe{name: "P", ins: []c17Field{{"d", c07B("bool")}}, outs: []c17Field{{"r", c07M(c07B("file"))}, {"g", c07B("file")}},
+		extra: []*c07PCallee{f, g, sink},
+		calls: []*c07PStm{
+			{id: "F", callee: f, binds: []c07NamedBind{{"a", c07Bind{split: true, e: &c07Exp{kind: 'm', keys: []string{"ka", "kb"}, elems: []*c07Exp{c07Int(1), c07Int(2)}}}}}, mods: dis},
+			{id: "G", callee: g, binds: []c07NamedBind{{"a", c07Bind{e: c07Int(3)}}}, mods: dis},
+			{id: "SINK", callee: sink, binds: []c07NamedBind{{"m", c07Bind{e: c07Ref('c', "F", "f")}}, {"g", c07Bind{e: c07Ref('c', "G", "f")}}}},
+		},
+		ret: []c07NamedBind{{"r", c07Bind{e: c07Ref('c', "F", "f")}}, {"g", c07Bind{e: c07Ref('c', "G", "f")}}}}
+	src := p.program()
+	if _, cerr := c07RealCompile(src); cerr != nil {
+		r.violate(Violation{Kind: "correspondence", Key: "C07:disabled-runtime:rejected", What: "the disabled-modifier program is rejected by the compiler: " + firstLine(cerr.Error()),
+			Input: map[string]interface{}{"program": src}})
+		return
+	}
+	ds := []*c07Exp{c07Bool(true), c07Bool(false), c07Null()}
+	var progs []*rtProgram
+	var models []string
+	for i, d := range ds {
+		top := &c07PStm{id: "P", callee: &c07PCallee{name: "P", params: p.ins, outs: p.outs}, binds: []c07NamedBind{{"d", c07Bind{e: d}}}}
+		rep := c.Drv.Ask("C07.progrun", strings.Join([]string{"1", p.enc(), top.enc(), "2"}, " "))
+		full := src + "call P(\n    d = " + d.mro() + ",\n)\n"
+		r.count(full, true)
+		q, err := compileProgram(fmt.Sprintf("disabled%d", i), full, nil)
+		if d.kind == 'n' {
+			// a null known at invocation: refused by resolveDisableExp; the model's run stops (Res.nullDisabled)
+			r.hist("disabled_runtime_static_null")
+			if err == nil || !strings.Contains(err.Error(), "disabled cannot be bound to a null value") || rep != "run nullDisabled" {
+				r.violate(Violation{Kind: "correspondence", Key: "C07:disabled-runtime:null", What: "`disabled` bound to a null top-level input: the real code must refuse the invocation (disabled cannot be bound to a null value) and the model's run must stop with nullDisabled",
+					Input: map[string]interface{}{"program": full}, Model: rep, Impl: fmt.Sprint(err), Broken: "correspondence disabledRT ~ resolveDisableExp / Fork.disabled (Props.C07.disabled_null_witness)"})
+			}
+			continue
+		}
+		if err != nil {
+			r.violate(Violation{Kind: "property", Key: "C07:disabled-runtime:invoke", What: "the accepted disabled-modifier program cannot be invoked: " + firstLine(err.Error()),
+				Input: map[string]interface{}{"program": full, "error": err.Error()}})
+			continue
+		}
+		progs = append(progs, q)
+		models = append(models, rep)
+	}
+	if len(progs) == 0 {
+		return
+	}
+	// skeleton of a top-level outputs object: per output null / keys of an object / "v"
+	skel := func(t *c17J) string {
+		if t == nil || t.kind != 'o' {
+			return "?"
+		}
+		var parts []string
+		for i, k := range t.keys {
+			v := t.arr[i]
+			switch {
+			case v.kind == 'n':
+				parts = append(parts, k+"=null")
+			case v.kind == 'o':
+				ks := append([]string{}, v.keys...)
+				sort.Strings(ks)
+				parts = append(parts, k+"={"+strings.Join(ks, ",")+"}")
+			default:
+				parts = append(parts, k+"=v")
+			}
+		}
+		sort.Strings(parts)
+		return strings.Join(parts, " ")
+	}
+	taInit()
+	for i, cs := range runCases(c, progs, 1, TASpec{}) {
+		res := cs.res
+		r.hist("disabled_runtime_" + finalClass(res.Final))
+		in := map[string]interface{}{"program": cs.prog.Src, "model": models[i]}
+		if res.Final != "complete" {
+			r.violate(Violation{Kind: "property", Key: "C07:disabled-runtime:" + classifyRuntimeError(res.Final, res.ErrMsg),
+				What: "the disabled-modifier program ended " + finalClass(res.Final) + ": " + firstLine(res.ErrMsg), Input: in})
+			continue
+		}
+		if !strings.HasPrefix(models[i], "run ") || models[i] == "run none" {
+			r.violate(Violation{Kind: "correspondence", Key: "C07:disabled-runtime:model-fails", What: "the checked run of the model fails on a program the runtime completes: " + models[i],
+				Input: in, Broken: "Props.C07.program_sound_partial (disabledRT)"})
+			continue
+		}
+		mt, _, e1 := c17ParseEnc(strings.Split(strings.TrimPrefix(models[i], "run "), " "))
+		it, e2 := c17ParseJSON(res.TopOuts)
+		if e1 != nil || e2 != nil {
+			r.note("disabled runtime: cannot parse outputs: %v %v (%s)", e1, e2, string(res.TopOuts))
+			continue
+		}
+		launchedF, launchedG := 0, 0
+		for k, n := range res.Launches {
+			if strings.Contains(k, ".P.F.") {
+				launchedF += n
+			}
+			if strings.Contains(k, ".P.G.") {
+				launchedG += n
+			}
+		}
+		ms, is := skel(mt), skel(it)
+		// model: an output is null iff the call was disabled (the stages of the model's oracle return null
+		// outputs, which a fork keeps as {"ka": null, "kb": null} and a single call as null: only `r` tells)
+		modelDisabled := strings.Contains(ms, "r=null")
+		implDisabled := launchedF == 0 && launchedG == 0
+		in["model_skeleton"], in["impl_skeleton"], in["launched_F"], in["launched_G"] = ms, is, launchedF, launchedG
+		r.hist(fmt.Sprintf("disabled_runtime_checked_disabled=%v", implDisabled))
+		wantImpl := "g=v r={ka,kb}"
+		if implDisabled {
+			wantImpl = "g=null r=null"
+		}
+		wantModel := "g=null r={ka,kb}"
+		if modelDisabled {
+			wantModel = "g=null r=null"
+		}
+		if modelDisabled != implDisabled || is != wantImpl || ms != wantModel || (launchedF == 0) != (launchedG == 0) {
+			r.violate(Violation{Kind: "correspondence", Key: "C07:disabled-runtime:differs", What: "model and runtime disagree on a call with a `disabled` modifier (invoked or not, null outputs, fork keys)",
+				Input: in, Model: ms, Impl: is, Broken: "correspondence disabledRT / stepCall ~ runtime disabled"})
+		}
+	}
+}
+
 func c07Pipelines(c *Ctx) {
 	c07PreflightWitness(c)
+	c07DisabledRuntime(c)
+	c07MergeUntypedMapStream(c)
 	c07UntypedMapWitness(c)
 	c07WildArityStream(c)
 	c07UnusedInputStream(c)
-	n := 700
+	n := 600
 	if c.Thorough {
-		n = 5000
+		n = 4000
 	}
 	for i := 0; i < n; i++ {
 		c07JudgePipe(c, c07GenPipe(c), "random")
@@ -1847,9 +2026,9 @@ func c07Pipelines(c *Ctx) {
 		m = 3000
 	}
 	c07StageRetainStream(c, m)
-	k := 40
+	k := 30
 	if c.Thorough {
-		k = 400
+		k = 300
 	}
 	c07NestedRuntime(c, k)
 }
